@@ -247,6 +247,25 @@ macro_rules! gen_builder {
             .box_it();
             r
           }
+          Src::Varying(scripts) => {
+            let scripts = scripts.clone();
+            let n = std::sync::Arc::new(std::sync::atomic::AtomicUsize::new(0));
+            let r: $B = defer(move || {
+              let k = n.fetch_add(1, std::sync::atomic::Ordering::SeqCst);
+              let script = scripts[k % scripts.len()].clone();
+              create(move |mut s: $Subscriber<$BoxObs>| {
+                for n in script {
+                  match n {
+                    N::Next(v) => s.next(v),
+                    N::Err(e) => s.clone().error(e),
+                    N::Complete => s.clone().complete(),
+                  }
+                }
+              })
+            })
+            .box_it();
+            r
+          }
           Src::Iter(items) => from_iter(items.clone()).on_error_map(inf).box_it(),
           Src::IterCount(id, cap) => {
             from_iter(CountIterable { id: *id, cap: *cap, log }).on_error_map(inf).box_it()
